@@ -372,6 +372,54 @@ def abandoned_first_step_probe(rep):
     return fails
 
 
+def closed_child_retention_probe(rep):
+    """A child that was advanced, fell behind and is then closed (or whose consumer was unwound by an error) holds nothing any
+    more: what was buffered only for it is released although the tee and its sibling live on"""
+    import gc
+    import weakref
+    from gencalc import drive
+    fails = 0
+
+    class Item:
+        pass
+
+    for lag in (1, 3, 6):
+        for started in (True, False):
+            made = []
+
+            class Lazy:
+                def __aiter__(self):
+                    return self
+
+                async def __anext__(self):
+                    it = Item()
+                    made.append(weakref.ref(it))
+                    return it
+
+            async def go():
+                t = a.tee(Lazy(), 2)
+                slow, fast = t[0], t[1]
+                if started:
+                    await slow.__anext__()
+                for _ in range(lag):
+                    await fast.__anext__()
+                await slow.aclose()
+                gc.collect()
+                alive = builtins.sum(1 for w in made if w() is not None)
+                await t.aclose()
+                return alive
+            try:
+                alive = drive(go())
+                why = None if alive <= 1 else "%d of the %d fetched items are still alive after the lagging child was closed (its sibling consumed them all)" % (alive, len(made))
+            except BaseException as e:  # noqa
+                why = "failed with %r" % (e,)
+            rep.count(("tee-closed-child-retention", lag, started), True)
+            if why:
+                fails += 1
+                rep.violation("tee:closed-child-retention", {"lag": lag, "slow_child_started": started, "why": why})
+    return fails
+
+
 def run(tier, seed):
     rep = Report("C09", tier, seed)
     proofs_ok = proof_stage(rep, "C09")
@@ -515,6 +563,8 @@ def run(tier, seed):
                 why = "after tee.aclose() (%s) the other children: %r" % (closed_ok, after)
             elif len(bufs) > 1:
                 why = "after tee.aclose() %d buffers are still registered" % len(bufs)
+            elif closed_ok != "closed" and src.closed:
+                why = "tee.aclose() (%s) closed the source although that child is still live (a tee closes its source when its last child is done)" % closed_ok
             pending.close()
         except BaseException as e:  # noqa
             why = "failed with %r" % (e,)
@@ -523,6 +573,7 @@ def run(tier, seed):
             fails += 1
             rep.violation("tee:handle", {"children": 3, "busy_child": busy, "why": why})
     fails += abandoned_first_step_probe(rep)
+    fails += closed_child_retention_probe(rep)
     # items are opaque to a tee: objects that claim to equal everything (or whose comparison / truth test raises) travel
     # through it like any other item, for every interleaving of the children
     class EqualsAll:
